@@ -278,9 +278,14 @@ func (s *Server) manifestPut(repoStr, arg string) http.HandlerFunc {
 			s.log.Debug("content digest did not match request", "repo", repoStr, "arg", arg, "expect", d.String())
 			return
 		}
-		// if mt == "", detect media type
+		// if mt == "", detect media type, otherwise the content must be the same kind of manifest as the header
 		if mt == "" {
 			mt = types.MediaTypeDetect(mRaw)
+		} else if mtBody := types.MediaTypeDetect(mRaw); mtBody != "" && types.MediaTypeIndex(mtBody) != types.MediaTypeIndex(mt) {
+			w.WriteHeader(http.StatusBadRequest)
+			_ = types.ErrRespJSON(w, types.ErrInfoManifestInvalid("media type does not match manifest content: "+mt))
+			s.log.Debug("media type mismatch", "repo", repoStr, "arg", arg, "mediaType", mt, "detected", mtBody)
+			return
 		}
 		// parse and validate image or index contents
 		var subject digest.Digest
@@ -293,6 +298,12 @@ func (s *Server) manifestPut(repoStr, arg string) http.HandlerFunc {
 				w.WriteHeader(http.StatusBadRequest)
 				_ = types.ErrRespJSON(w, types.ErrInfoManifestInvalid("manifest could not be parsed"))
 				s.log.Debug("failed to parse image manifest", "repo", repoStr, "arg", arg, "mediaType", mt, "err", err)
+				return
+			}
+			if m.MediaType != "" && m.MediaType != mt {
+				w.WriteHeader(http.StatusBadRequest)
+				_ = types.ErrRespJSON(w, types.ErrInfoManifestInvalid("media type does not match manifest content: "+mt))
+				s.log.Debug("media type mismatch", "repo", repoStr, "arg", arg, "mediaType", mt, "content", m.MediaType)
 				return
 			}
 			// validate image blobs exist
@@ -323,6 +334,12 @@ func (s *Server) manifestPut(repoStr, arg string) http.HandlerFunc {
 				w.WriteHeader(http.StatusBadRequest)
 				_ = types.ErrRespJSON(w, types.ErrInfoManifestInvalid("manifest could not be parsed"))
 				s.log.Debug("failed to parse image manifest", "repo", repoStr, "arg", arg, "mediaType", mt, "err", err)
+				return
+			}
+			if m.MediaType != "" && m.MediaType != mt {
+				w.WriteHeader(http.StatusBadRequest)
+				_ = types.ErrRespJSON(w, types.ErrInfoManifestInvalid("media type does not match manifest content: "+mt))
+				s.log.Debug("media type mismatch", "repo", repoStr, "arg", arg, "mediaType", mt, "content", m.MediaType)
 				return
 			}
 			addOpts = append(addOpts, types.IndexWithChildren(m.Manifests))
